@@ -7,6 +7,7 @@ C15 - a displayed value or expression means the same as the source expression.
   R15.5 truncation is always marked
   R15.6 control characters keep their value (shared with C10)
   R15.7 string arguments of Literal[...] are not unstringed, whatever the qualifier of Literal
+  R15.8 the plain-text rendering of a parsed value collects the text leaf by leaf, never with document.astext()
 Does not decide: precedence values (astor's table is trusted), string/number spelling, line-length arithmetic.
 """
 from __future__ import annotations
@@ -494,6 +495,29 @@ def run(repo: Repo, chk: Check, thorough: bool = False) -> None:
            'Annotated is treated like any other subscript, every string in it is parsed as code: `Annotated[float, "meters"]` is displayed as '
            '`Annotated[float, meters]`, `Field(alias="id")` as `Field(alias=id)`', vs.loc)
     chk.require('R15.7', 2)
+
+    # ------------------------------------------------------------------ R15.8
+    # the secondary (plain text) rendering of a colorized value shows the text of the whole document ParsedDocstring.to_node() returns.  docutils'
+    # Element.astext() joins the children of an element with a blank line ('\n\n'): on a document that separates every token of the expression
+    # (the quote, the text and the closing quote of a string end up on different lines).  The text has to be collected leaf by leaf (node2stan.gettext)
+    n_txt = 0
+    for f in sorted(repo.funcs.values(), key=lambda g: g.qn):
+        docs = names_assigned_from(f, lambda v: isinstance(v, ast.Call) and call_name(v) == 'to_node')
+        for c in calls_in(f):
+            if call_name(c) == 'gettext' and c.args and ((isinstance(c.args[0], ast.Call) and call_name(c.args[0]) == 'to_node') or
+                                                         (isinstance(c.args[0], ast.Name) and c.args[0].id in docs)):
+                n_txt += 1
+                chk.ob('R15.8', f'{f.qn} :: the text of the document is collected leaf by leaf', True, norm(c)[:80], repo.loc(f.mod, c))
+            elif call_name(c) == 'astext' and isinstance(c.func, ast.Attribute) and \
+                    ((isinstance(c.func.value, ast.Call) and call_name(c.func.value) == 'to_node') or (isinstance(c.func.value, ast.Name) and c.func.value.id in docs)):
+                n_txt += 1
+                chk.ob('R15.8', f'{f.qn} :: the text of the document is collected leaf by leaf', False,
+                       f'`{norm(c)[:70]}`: Element.astext() separates the children of the document with blank lines - every token of a displayed expression '
+                       'lands on a line of its own, string literals are cut at their quotes and the text no longer reads back as the source expression',
+                       repo.loc(f.mod, c))
+    if n_txt < 2:
+        raise AnalysisError(f'R15.8: {n_txt} plain-text renderings of a to_node() document found (2 confirmed: colorized_pyval_fallback, _field_body_fallback)')
+    chk.require('R15.8', 2)
 
 
 def _reads_back(esc: str) -> Optional[str]:
